@@ -12,7 +12,7 @@
 (*   [t|->"bytes",v|->Seq(0..255)]  [t|->"text",v|->Seq(code point)]       *)
 (*   [t|->"float",v|->Seq(0..255)] (IEEE pattern, big endian)              *)
 (*   [t|->"dict",v|-><< <<name,val>>,... >>]  [t|->"list",v|-><<val,...>>] *)
-(*   [t|->"pair",a|->case/row name,b|->val]   [t|->"str",v|->name]         *)
+(*   [t|->"pair",a|->case/row name,b|->val]   [t|->"str",s|->name]         *)
 (*   [t|->"missing"]                                                       *)
 (*                                                                         *)
 (* Conventions of the implementation that the reference adopts (each is a  *)
@@ -126,6 +126,11 @@ EncAtomic(dct, v, st, bit) ==
               ELSE EmplaceValue(s1, BytesBits(raw), bit, FALSE)
       [] OTHER -> Err(st)
 
+Str(x) == [t |-> "str", s |-> x]
+\* tables: [k |-> "table", kdct, rows |-> << [n, key, st] >>]; a TABLE-STRUCT parameter names its TABLE-KEY parameter in p.sys
+RowsNamed(tab, nm) == {i \in 1..Len(tab.rows) : tab.rows[i].n = nm}
+RowsKeyed(tab, key) == {i \in 1..Len(tab.rows) : tab.rows[i].key = key}
+
 ---------------------------------------------------------------------------
 (* parameters and data objects: encoder *)
 IsKey(p) == p.k \in {"LENGTH-KEY", "TABLE-KEY"}
@@ -159,6 +164,22 @@ EncParam(p, v, st, last, outerEop) ==
                         ELSE [s0 EXCEPT !.lk = PairsPut(s0.lk, p.n, v.v)]
                   w == (bit + DopBits(p.dop) + 7) \div 8
               IN [Emplace([s1 EXCEPT !.kp = PairsPut(s1.kp, p.n, s0.cur)], Zeros(8 * w), Zeros(8 * w)) EXCEPT !.err = s1.err]
+         [] p.k = "TABLE-KEY" ->
+              \* placeholder like a length key; an explicit value names the row and must agree with what is already chosen
+              LET s1 == IF IsMissing(v) THEN s0
+                        ELSE IF v.t # "str" \/ (PairsHas(s0.tk, p.n) /\ PairsGet(s0.tk, p.n) # v.s) THEN Err(s0)
+                        ELSE [s0 EXCEPT !.tk = PairsPut(s0.tk, p.n, v.s)]
+                  w == (bit + p.dop.kdct.bits + 7) \div 8
+              IN [Emplace([s1 EXCEPT !.kp = PairsPut(s1.kp, p.n, s0.cur)], Zeros(8 * w), Zeros(8 * w)) EXCEPT !.err = s1.err]
+         [] p.k = "TABLE-STRUCT" ->
+              \* (row name, content): selects the row for its key, then the row's structure / data object encodes the content
+              IF IsMissing(v) \/ v.t # "pair" THEN Err(s0)
+              ELSE IF PairsHas(s0.tk, p.sys) /\ PairsGet(s0.tk, p.sys) # v.a THEN Err(s0)
+              ELSE LET hit == RowsNamed(p.dop, v.a) IN
+                   IF hit = {} THEN Err(s0)
+                   ELSE LET row == p.dop.rows[CHOOSE i \in hit : TRUE] IN
+                        IF row.st.k = "none" THEN Err(s0)
+                        ELSE EncDop(row.st, v.b, [s0 EXCEPT !.tk = PairsPut(s0.tk, p.sys, v.a)], bit)
          [] OTHER -> Err(s0)
 
 EncParams(ps, i, d, st, outerEop) ==
@@ -173,6 +194,12 @@ PatchKeys(ps, i, st) ==
             s0 == [st EXCEPT !.cur = PairsGet(st.kp, p.n)]
         IN IF ~PairsHas(st.lk, p.n) THEN Err(st)
            ELSE PatchKeys(ps, i + 1, EncDop(p.dop, IntV(PairsGet(st.lk, p.n)), s0, IF p.bi >= 0 THEN p.bi ELSE 0))
+    ELSE IF ps[i].k = "TABLE-KEY" THEN
+        LET p == ps[i]
+            s0 == [st EXCEPT !.cur = PairsGet(st.kp, p.n)]
+            hit == IF PairsHas(st.tk, p.n) THEN RowsNamed(p.dop, PairsGet(st.tk, p.n)) ELSE {}
+        IN IF hit = {} THEN Err(st)
+           ELSE PatchKeys(ps, i + 1, EncAtomic(p.dop.kdct, IntV(p.dop.rows[CHOOSE i2 \in hit : TRUE].key), s0, IF p.bi >= 0 THEN p.bi ELSE 0))
     ELSE PatchKeys(ps, i + 1, st)
 
 \* a parameter list (request, response, structure): positions are relative to where it starts
@@ -244,7 +271,7 @@ PduBytes(st) == BitsBytes(st.pdu)
 
 ---------------------------------------------------------------------------
 (* decoder *)
-DecInit(pdu) == [pdu |-> pdu, cur |-> 0, org |-> 0, lk |-> <<>>, err |-> FALSE, mism |-> FALSE, hi |-> 0]
+DecInit(pdu) == [pdu |-> pdu, cur |-> 0, org |-> 0, lk |-> <<>>, tk |-> <<>>, err |-> FALSE, mism |-> FALSE, hi |-> 0]
 DErr(ds) == [ds EXCEPT !.err = TRUE]
 R(ds, v) == [ds |-> ds, v |-> v]
 NBytes(ds) == Len(ds.pdu) \div 8
@@ -334,6 +361,16 @@ DecParam(p, ds) ==
          [] p.k = "LENGTH-KEY" -> LET r == DecDop(p.dop, d0, bit) IN
                                   IF r.ds.err \/ r.v.t # "int" THEN R(DErr(r.ds), Missing)
                                   ELSE R([r.ds EXCEPT !.lk = PairsPut(r.ds.lk, p.n, r.v.v)], r.v)
+         [] p.k = "TABLE-KEY" -> LET r == DecAtomic(p.dop.kdct, d0, bit) IN
+                                 IF r.ds.err \/ r.v.t # "int" THEN R(DErr(r.ds), Missing)
+                                 ELSE LET hit == RowsKeyed(p.dop, r.v.v) IN
+                                      IF Cardinality(hit) # 1 THEN R(DErr(r.ds), Missing)
+                                      ELSE LET row == p.dop.rows[CHOOSE i \in hit : TRUE] IN
+                                           R([r.ds EXCEPT !.tk = PairsPut(r.ds.tk, p.n, row.n)], Str(row.n))
+         [] p.k = "TABLE-STRUCT" -> IF ~PairsHas(d0.tk, p.sys) THEN R(DErr(d0), Missing)
+                                    ELSE LET row == p.dop.rows[CHOOSE i \in RowsNamed(p.dop, PairsGet(d0.tk, p.sys)) : TRUE] IN
+                                         IF row.st.k = "none" THEN R(d0, [t |-> "pair", a |-> row.n, b |-> Missing])
+                                         ELSE LET r == DecDop(row.st, d0, bit) IN R(r.ds, [t |-> "pair", a |-> row.n, b |-> r.v])
          [] OTHER -> R(DErr(d0), Missing)
 
 DecParams(ps, i, ds, acc) ==
@@ -425,7 +462,7 @@ DopStaticBits(d) == CASE d.k = "simple" -> DctStaticBits(d.dct)
                       [] OTHER -> -1
 MsgStaticBits(ps) == ListStaticBits(ps, 1, 0, 0)
 
-IsRequired(p) == CASE p.k \in {"VALUE"} -> IsMissing(p.dv) [] p.k = "SYSTEM" -> IsMissing(p.dv) [] OTHER -> FALSE
+IsRequired(p) == CASE p.k \in {"VALUE"} -> IsMissing(p.dv) [] p.k = "SYSTEM" -> IsMissing(p.dv) [] p.k = "TABLE-STRUCT" -> TRUE [] OTHER -> FALSE
 IsSettable(p) == p.k \in {"VALUE", "SYSTEM", "LENGTH-KEY", "TABLE-KEY", "TABLE-STRUCT"}
 Required(ps) == {ps[i].n : i \in {j \in 1..Len(ps) : IsRequired(ps[j])}}
 Free(ps) == {ps[i].n : i \in {j \in 1..Len(ps) : IsSettable(ps[j])}}
